@@ -51,26 +51,27 @@ def run(ck):
     ]
     invs = "DenseT DenseP Gap FactorT FactorP SymSpec SelfT".split()
     bg = BackgroundMC()
-    bg.start("MC:density lemma + factoring (all ordered atom pairs)", "AtomIntersect_MC",
-             "SPECIFICATION Spec\nCONSTANT Size = %d\n" % size + "".join(f"INVARIANT {i}\n" for i in invs), heap="4g")
-    recs = ck.export("AtomIntersect_Export", cfg_text="CONSTANT Size = %d\n" % size, timeout=600)
-    atoms = list(recs)
-    pairs = []
-    for blk in ("ver", "attr", "use", "mix"):
-        idx = [i + 1 for i, x in enumerate(atoms) if x["blk"] == blk]
-        if not idx:
-            raise tlc.MachineryError(f"export block {blk} is empty")
-        pairs += [(a, b) for a in idx for b in idx]
-    ck.exhaustive = True
-    r = rng(5)
-    for _ in range(ck.pick(1500, 30000)):
-        a = rand_atom(r)
-        b = rand_atom(r, a["ver"])
-        atoms += [a, b]
-        pairs.append((len(atoms) - 1, len(atoms)))
     if ck.replay_case:
         d = ck.replay_case["detail"]
         atoms, pairs = [d["a_rec"], d["b_rec"]], [(1, 2)]
+    else:
+        bg.start("MC:density lemma + factoring (all ordered atom pairs)", "AtomIntersect_MC",
+                 "SPECIFICATION Spec\nCONSTANT Size = %d\n" % size + "".join(f"INVARIANT {i}\n" for i in invs), heap="4g")
+        recs = ck.export("AtomIntersect_Export", cfg_text="CONSTANT Size = %d\n" % size, timeout=600)
+        atoms = list(recs)
+        pairs = []
+        for blk in ("ver", "attr", "use", "mix"):
+            idx = [i + 1 for i, x in enumerate(atoms) if x["blk"] == blk]
+            if not idx:
+                raise tlc.MachineryError(f"export block {blk} is empty")
+            pairs += [(a, b) for a in idx for b in idx]
+        ck.exhaustive = True
+        r = rng(5)
+        for _ in range(ck.pick(1500, 30000)):
+            a = rand_atom(r)
+            b = rand_atom(r, a["ver"])
+            atoms += [a, b]
+            pairs.append((len(atoms) - 1, len(atoms)))
 
     real = [atom(atom_text(a)) for a in atoms]
     events = [dict(tid=0, i=0, atoms=atoms)]
